@@ -300,80 +300,120 @@ package client
 // ---------------------------------------------------------------------------------------------
 //@ macro hdrOnly(h_, k_, v_) = forallS(w_, rhLine[h_][hnorm(k_)][w_] == (w_ == v_))
 //@ macro hdrOthersKept(h_, k_) = forallS(n_, n_ != hnorm(k_) ==> rhLine[h_][n_] == old(rhLine[h_][n_])) && forallI(o_, o_ != h_ ==> rhLine[o_] == old(rhLine[o_]))
+// User-Agent is not a header line inside fasthttp: a header writer called with a name that normalises to "User-Agent"
+// writes the user-agent FIELD of the header object (ghost rhUA, the one SetUserAgent writes) and stores no line; the value
+// REPLACES the earlier one, also for AddHeader (mw_C18.spec, corrected after the conformance test). The line clauses below
+// are therefore stated for the other names, and every header writer says what it does to the field.
+// (The other names fasthttp keeps in dedicated fields - Host, Content-Type, Content-Length, Cookie, Connection, Trailer,
+// Transfer-Encoding - are outside the domain of these contracts: recorded assumption.)
+//@ macro isUA(k_) = uaName(hnorm(k_))
+//@ macro uaSetIfNamed(h_, k_, v_) = rhUA == ite(isUA(k_), old(rhUA)[h_ := v_], old(rhUA))
+//@ macro uaOthersKept(h_) = forallI(o_, o_ != h_ ==> rhUA[o_] == old(rhUA[o_]))
 
 // AddHeader: one more line; nothing replaced, nothing dropped.
 //@ func (*Request).AddHeader
-//@   modifies rhLine
-//@   ensures header-line-added: lineIn(r.header.RequestHeader, key, val) && result == r
+//@   modifies rhLine, rhUA
+//@   ensures header-line-added: (!isUA(key) ==> lineIn(r.header.RequestHeader, key, val)) && result == r
 //@   ensures no-line-dropped: noLineDropped()
 //@   ensures nothing-else-added: onlyLineAdded(r.header.RequestHeader, key, val)
+//@   ensures user-agent-goes-to-its-field: uaSetIfNamed(r.header.RequestHeader, key, val)
 // SetHeader: afterwards the name has exactly this one value; other names and other header objects are untouched.
 //@ func (*Request).SetHeader
-//@   modifies rhLine, rqHdrHas
-//@   ensures header-has-exactly-this-value: hdrOnly(r.header.RequestHeader, key, val) && result == r
+//@   modifies rhLine, rqHdrHas, rhUA
+//@   ensures header-has-exactly-this-value: (!isUA(key) ==> hdrOnly(r.header.RequestHeader, key, val)) && result == r
 //@   ensures other-headers-kept: hdrOthersKept(r.header.RequestHeader, key)
+//@   ensures user-agent-goes-to-its-field: uaSetIfNamed(r.header.RequestHeader, key, val)
 //@ func (*Client).AddHeader
-//@   modifies rhLine
-//@   ensures header-line-added: lineIn(c.header.RequestHeader, key, val) && result == c
+//@   modifies rhLine, rhUA
+//@   ensures header-line-added: (!isUA(key) ==> lineIn(c.header.RequestHeader, key, val)) && result == c
 //@   ensures no-line-dropped: noLineDropped()
 //@   ensures nothing-else-added: onlyLineAdded(c.header.RequestHeader, key, val)
+//@   ensures user-agent-goes-to-its-field: uaSetIfNamed(c.header.RequestHeader, key, val)
+// (fasthttp's Set rewrites only the FIRST line of a name - mw_C18.spec - so "exactly this one value" needs the Del that
+// Request.SetHeader has; Client.SetHeader lacked it: replay/known c18 ClientSetHeaderKeepsStaleValues, fix_1.diff)
 //@ func (*Client).SetHeader
-//@   modifies rhLine
-//@   ensures header-has-exactly-this-value: hdrOnly(c.header.RequestHeader, key, val) && result == c
+//@   modifies rhLine, rqHdrHas, rhUA
+//@   ensures header-has-exactly-this-value: (!isUA(key) ==> hdrOnly(c.header.RequestHeader, key, val)) && result == c
 //@   ensures other-headers-kept: hdrOthersKept(c.header.RequestHeader, key)
+//@   ensures user-agent-goes-to-its-field: uaSetIfNamed(c.header.RequestHeader, key, val)
 
 // SetHeaders(map): every given name has exactly its given value afterwards - for a name that the map gives once
 // (header names are compared after normalisation: a map holding both "x-a" and "X-A" names one header twice,
 // and which value survives depends on the map iteration order; such a name is excluded, see hdrKeyAlone).
 //@ macro hdrKeyAlone(m_, k_) = forallS(j_, indom(m_, j_) && j_ != k_ ==> hnorm(j_) != hnorm(k_))
+//@ macro noUAIn(m_) = forallS(j_, indom(m_, j_) ==> !isUA(j_))
 //@ func (*Header).SetHeaders
-//@   modifies rhLine, rqHdrHas
+//@   modifies rhLine, rqHdrHas, rhUA
 //@   loop 1
 //@     invariant visited-are-keys: forallS(k, seen(k) ==> indom(r, k))
-//@     invariant visited-set: forallS(k, seen(k) && hdrKeyAlone(r, k) ==> hdrOnly(h.RequestHeader, k, r[k]))
+//@     invariant visited-set: forallS(k, seen(k) && hdrKeyAlone(r, k) && !isUA(k) ==> hdrOnly(h.RequestHeader, k, r[k]))
 //@     invariant names-not-visited-kept: forallS(n, forallS(j, seen(j) ==> hnorm(j) != n) ==> rhLine[h.RequestHeader][n] == old(rhLine[h.RequestHeader][n]))
 //@     invariant other-objects-kept: forallI(o, o != h.RequestHeader ==> rhLine[o] == old(rhLine[o]))
-//@   ensures every-given-header-set: forallS(k, indom(r, k) && hdrKeyAlone(r, k) ==> hdrOnly(h.RequestHeader, k, r[k]))
+//@     invariant user-agent-of-other-objects-kept: uaOthersKept(h.RequestHeader)
+//@     invariant user-agent-kept-until-named: forallS(j, seen(j) ==> !isUA(j)) ==> rhUA == old(rhUA)
+//@     invariant user-agent-set-when-named: forallS(k, seen(k) && hdrKeyAlone(r, k) && isUA(k) ==> rhUA[h.RequestHeader] == r[k])
+//@   ensures every-given-header-set: forallS(k, indom(r, k) && hdrKeyAlone(r, k) && !isUA(k) ==> hdrOnly(h.RequestHeader, k, r[k]))
 //@   ensures names-not-given-kept: forallS(n, forallS(j, indom(r, j) ==> hnorm(j) != n) ==> rhLine[h.RequestHeader][n] == old(rhLine[h.RequestHeader][n]))
 //@   ensures other-objects-kept: forallI(o, o != h.RequestHeader ==> rhLine[o] == old(rhLine[o]))
+//@   ensures user-agent-of-other-objects-kept: uaOthersKept(h.RequestHeader)
+//@   ensures user-agent-kept-unless-named: noUAIn(r) ==> rhUA == old(rhUA)
+//@   ensures user-agent-set-when-named: forallS(k, indom(r, k) && hdrKeyAlone(r, k) && isUA(k) ==> rhUA[h.RequestHeader] == r[k])
 //@ func (*Request).SetHeaders
-//@   modifies rhLine, rqHdrHas
-//@   ensures every-given-header-set: forallS(k, indom(h, k) && hdrKeyAlone(h, k) ==> hdrOnly(r.header.RequestHeader, k, h[k])) && result == r
+//@   modifies rhLine, rqHdrHas, rhUA
+//@   ensures every-given-header-set: forallS(k, indom(h, k) && hdrKeyAlone(h, k) && !isUA(k) ==> hdrOnly(r.header.RequestHeader, k, h[k])) && result == r
 //@   ensures names-not-given-kept: forallS(n, forallS(j, indom(h, j) ==> hnorm(j) != n) ==> rhLine[r.header.RequestHeader][n] == old(rhLine[r.header.RequestHeader][n]))
 //@   ensures other-objects-kept: forallI(o, o != r.header.RequestHeader ==> rhLine[o] == old(rhLine[o]))
+//@   ensures user-agent-of-other-objects-kept: uaOthersKept(r.header.RequestHeader)
+//@   ensures user-agent-kept-unless-named: noUAIn(h) ==> rhUA == old(rhUA)
+//@   ensures user-agent-set-when-named: forallS(k, indom(h, k) && hdrKeyAlone(h, k) && isUA(k) ==> rhUA[r.header.RequestHeader] == h[k])
 //@ func (*Client).SetHeaders
-//@   modifies rhLine, rqHdrHas
-//@   ensures every-given-header-set: forallS(k, indom(h, k) && hdrKeyAlone(h, k) ==> hdrOnly(c.header.RequestHeader, k, h[k])) && result == c
+//@   modifies rhLine, rqHdrHas, rhUA
+//@   ensures every-given-header-set: forallS(k, indom(h, k) && hdrKeyAlone(h, k) && !isUA(k) ==> hdrOnly(c.header.RequestHeader, k, h[k])) && result == c
 //@   ensures names-not-given-kept: forallS(n, forallS(j, indom(h, j) ==> hnorm(j) != n) ==> rhLine[c.header.RequestHeader][n] == old(rhLine[c.header.RequestHeader][n]))
 //@   ensures other-objects-kept: forallI(o, o != c.header.RequestHeader ==> rhLine[o] == old(rhLine[o]))
+//@   ensures user-agent-of-other-objects-kept: uaOthersKept(c.header.RequestHeader)
+//@   ensures user-agent-kept-unless-named: noUAIn(h) ==> rhUA == old(rhUA)
+//@   ensures user-agent-set-when-named: forallS(k, indom(h, k) && hdrKeyAlone(h, k) && isUA(k) ==> rhUA[c.header.RequestHeader] == h[k])
 
 // AddHeaders(map name -> values): every given value is added as a line of its name; no line is dropped or replaced.
 //@ macro valuesAdded(h_, k_, vs_) = forall(i_, 0, len(vs_), lineIn(h_, k_, vs_[i_]))
 //@ func (*Header).AddHeaders
-//@   modifies rhLine
+//@   modifies rhLine, rhUA
 //@   loop 1
-//@     invariant visited-added: forallS(k, seen(k) ==> valuesAdded(h.RequestHeader, k, r[k]))
+//@     invariant visited-are-keys: forallS(k, seen(k) ==> indom(r, k))
+//@     invariant visited-added: forallS(k, seen(k) && !isUA(k) ==> valuesAdded(h.RequestHeader, k, r[k]))
 //@     invariant no-line-dropped: noLineDropped()
 //@     invariant other-objects-kept: forallI(o, o != h.RequestHeader ==> rhLine[o] == old(rhLine[o]))
+//@     invariant user-agent-of-other-objects-kept: uaOthersKept(h.RequestHeader)
+//@     invariant user-agent-kept-until-named: forallS(j, seen(j) ==> !isUA(j)) ==> rhUA == old(rhUA)
 //@   loop 2
 //@     invariant index-in-range: rangeindex + 1 <= len(v)
-//@     invariant earlier-names-added: forallS(j, seen(j) && j != k ==> valuesAdded(h.RequestHeader, j, r[j]))
-//@     invariant values-so-far-added: forall(i, 0, rangeindex + 1, lineIn(h.RequestHeader, k, v[i]))
+//@     invariant visited-are-keys: forallS(j, seen(j) ==> indom(r, j))
+//@     invariant earlier-names-added: forallS(j, seen(j) && j != k && !isUA(j) ==> valuesAdded(h.RequestHeader, j, r[j]))
+//@     invariant values-so-far-added: !isUA(k) ==> forall(i, 0, rangeindex + 1, lineIn(h.RequestHeader, k, v[i]))
 //@     invariant no-line-dropped: noLineDropped()
 //@     invariant other-objects-kept: forallI(o, o != h.RequestHeader ==> rhLine[o] == old(rhLine[o]))
-//@   ensures every-given-value-added: forallS(k, indom(r, k) ==> valuesAdded(h.RequestHeader, k, r[k]))
+//@     invariant user-agent-of-other-objects-kept: uaOthersKept(h.RequestHeader)
+//@     invariant user-agent-kept-until-named: forallS(j, seen(j) ==> !isUA(j)) ==> rhUA == old(rhUA)
+//@   ensures every-given-value-added: forallS(k, indom(r, k) && !isUA(k) ==> valuesAdded(h.RequestHeader, k, r[k]))
 //@   ensures no-line-dropped: noLineDropped()
 //@   ensures other-objects-kept: forallI(o, o != h.RequestHeader ==> rhLine[o] == old(rhLine[o]))
+//@   ensures user-agent-of-other-objects-kept: uaOthersKept(h.RequestHeader)
+//@   ensures user-agent-kept-unless-named: noUAIn(r) ==> rhUA == old(rhUA)
 //@ func (*Request).AddHeaders
-//@   modifies rhLine
-//@   ensures every-given-value-added: forallS(k, indom(h, k) ==> valuesAdded(r.header.RequestHeader, k, h[k])) && result == r
+//@   modifies rhLine, rhUA
+//@   ensures every-given-value-added: forallS(k, indom(h, k) && !isUA(k) ==> valuesAdded(r.header.RequestHeader, k, h[k])) && result == r
 //@   ensures no-line-dropped: noLineDropped()
 //@   ensures other-objects-kept: forallI(o, o != r.header.RequestHeader ==> rhLine[o] == old(rhLine[o]))
+//@   ensures user-agent-of-other-objects-kept: uaOthersKept(r.header.RequestHeader)
+//@   ensures user-agent-kept-unless-named: noUAIn(h) ==> rhUA == old(rhUA)
 //@ func (*Client).AddHeaders
-//@   modifies rhLine
-//@   ensures every-given-value-added: forallS(k, indom(h, k) ==> valuesAdded(c.header.RequestHeader, k, h[k])) && result == c
+//@   modifies rhLine, rhUA
+//@   ensures every-given-value-added: forallS(k, indom(h, k) && !isUA(k) ==> valuesAdded(c.header.RequestHeader, k, h[k])) && result == c
 //@   ensures no-line-dropped: noLineDropped()
 //@   ensures other-objects-kept: forallI(o, o != c.header.RequestHeader ==> rhLine[o] == old(rhLine[o]))
+//@   ensures user-agent-of-other-objects-kept: uaOthersKept(c.header.RequestHeader)
+//@   ensures user-agent-kept-unless-named: noUAIn(h) ==> rhUA == old(rhUA)
 
 // ---------------------------------------------------------------------------------------------
 // Query parameters and form data (argHas: the pairs a fasthttp.Args object holds; mw_C18.spec)
@@ -623,7 +663,7 @@ package client
 //@ macro cfg0() = config[0]
 //@ func setConfigToRequest
 //@   requires request-made: hasMaps(req)
-//@   modifies req.ctx, req.userAgent, req.referer, req.timeout, req.maxRedirects, req.body, req.bodyType, req.files, heap(E_p_client_File), rhLine, rqHdrHas, argHas, heap(MD_string_string), heap(MV_string_string)
+//@   modifies req.ctx, req.userAgent, req.referer, req.timeout, req.maxRedirects, req.body, req.bodyType, req.files, heap(E_p_client_File), rhLine, rhUA, rqHdrHas, argHas, heap(MD_string_string), heap(MV_string_string)
 //@   ensures no-config-no-change: len(config) == 0 ==> req.userAgent == old(req.userAgent) && req.referer == old(req.referer) && req.timeout == old(req.timeout) && req.maxRedirects == old(req.maxRedirects) && req.body == old(req.body) && req.bodyType == old(req.bodyType) && req.files == old(req.files) && rhLine == old(rhLine) && argHas == old(argHas)
 //@   ensures user-agent: len(config) > 0 ==> req.userAgent == ite(old(cfg0().UserAgent) != "", old(cfg0().UserAgent), old(req.userAgent))
 //@   ensures referer: len(config) > 0 ==> req.referer == ite(old(cfg0().Referer) != "", old(cfg0().Referer), old(req.referer))
@@ -635,7 +675,9 @@ package client
 //@   ensures no-body-configured: len(config) > 0 && old(cfg0().Body) == nil && old(cfg0().FormData) == nil && old(len(cfg0().File)) == 0 ==> req.body == old(req.body) && req.bodyType == old(req.bodyType) && req.files == old(req.files)
 //@   requires own-maps: *req.cookies != *req.path && req.params.Args != req.formData.Args
 // (the values the maps of the Config held at entry; a Config map that IS one of the request's own maps is excluded)
-//@   ensures headers: len(config) > 0 && old(cfg0().Header) != nil ==> forallS(k, old(indom(cfg0().Header, k)) && old(hdrKeyAlone(cfg0().Header, k)) ==> hdrOnly(req.header.RequestHeader, k, old(cfg0().Header[k])))
+//@   ensures headers: len(config) > 0 && old(cfg0().Header) != nil ==> forallS(k, old(indom(cfg0().Header, k)) && old(hdrKeyAlone(cfg0().Header, k)) && !isUA(k) ==> hdrOnly(req.header.RequestHeader, k, old(cfg0().Header[k])))
+//@   ensures user-agent-header-goes-to-its-field: len(config) > 0 && old(cfg0().Header) != nil ==> forallS(k, old(indom(cfg0().Header, k)) && old(hdrKeyAlone(cfg0().Header, k)) && isUA(k) ==> rhUA[req.header.RequestHeader] == old(cfg0().Header[k]))
+//@   ensures user-agent-field-kept-unless-named: len(config) == 0 || old(cfg0().Header) == nil || old(noUAIn(cfg0().Header)) ==> rhUA == old(rhUA)
 //@   ensures query-parameters: len(config) > 0 && old(cfg0().Param) != nil ==> forallS(k, old(indom(cfg0().Param, k)) ==> argOnly(req.params.Args, k, old(cfg0().Param[k])))
 //@   ensures cookies: len(config) > 0 && old(cfg0().Cookie) != nil && old(cfg0().Cookie) != *req.path ==> forallS(k, old(indom(cfg0().Cookie, k)) ==> indom(*req.cookies, k) && (*req.cookies)[k] == old(cfg0().Cookie[k]))
 //@   ensures path-parameters: len(config) > 0 && old(cfg0().PathParam) != nil && old(cfg0().PathParam) != *req.cookies ==> forallS(k, old(indom(cfg0().PathParam, k)) ==> indom(*req.path, k) && (*req.path)[k] == old(cfg0().PathParam[k]))
